@@ -1082,6 +1082,9 @@ namespace Pistache::Http
         auto sockFd     = peer->fd();
 
         auto buffer = buf->buffer();
+        // what getResponseSize() reports: the head and the file, counted when
+        // they are handed to the transport, as send() does
+        writer.sent_bytes_ += buffer.size() + len;
         return transport->asyncWrite(sockFd, buffer, MSG_MORE)
             .then(
                 [=](ssize_t) {
